@@ -2,6 +2,7 @@ import Proofs.XRealArith
 import Model.T4Spec
 import Proofs.T4SpecTie
 import Proofs.T4SpecFill
+import Proofs.T4SpecGrid
 import Mathlib.Data.List.Pairwise
 import Mathlib.Tactic.Linarith
 /-!
@@ -15,9 +16,12 @@ axis only.  For all four axes together (`all_axes_score_attached`, any sequence 
 no two blocks were read under the same (time step, mu zone, phi zone) indices, every printed row is the content of the
 cell at (its row index, those indices), each axis being read through the very flip that `convert` applies to the bins of
 that axis; `axis_bins_increasing` shows that this flip makes any strictly monotone edge list strictly increasing; and
-`time_edges_collected` says which edges the time axis is made of.  PARTIAL: that a *well-formed printed grid* yields
-pairwise distinct indices and the expected number of bins (`nbBins`) is not proved (it is what the generator of the
-correspondence builds); the pyparsing grammar, the mesh / Green bands / IFP / keff builders and the Apollo3 reader are
+`time_edges_collected` says which edges the time axis is made of.  `grid_scores_attached` instantiates this on a response
+printed over a full time x mu x phi grid (blocks in lexicographic order, each key printed with the first block it applies
+to): such a sequence is read under pairwise distinct indices, `_get_number_of_bins` finds the three dimensions, and the
+row printed for (group ie, time step it, mu zone im, phi zone ip) is the content of the cell at those indices.  PARTIAL:
+that `convert` *returns* on such a grid (the `-a` contiguity check of the first block, the last-bin look-ups) is a
+hypothesis, as is the absence of an axis (a grid without time / mu / phi keys); the pyparsing grammar, the mesh / Green bands / IFP / keff builders and the Apollo3 reader are
 covered by the correspondence (bit-exact unit level, ground-truth end to end), not by theorems.
 -/
 namespace T4Spec
@@ -395,5 +399,61 @@ example : (cursors (0, 0, 0)
      ⟨some ⟨1, fin 1, fin 5⟩, some ⟨0, fin (-1), fin 0⟩, none, [⟨fin 1, fin 2, fin 9, fin 1, fin 0⟩], none⟩,
      ⟨none, some ⟨1, fin 0, fin 1⟩, none, [⟨fin 1, fin 2, fin 6, fin 1, fin 0⟩], none⟩]).Nodup := by
   simp [cursors, curStep]
+
+end T4Spec
+
+namespace T4Spec
+open XReal
+
+/-- the position, in the sequence read, of the block printed for (it, im, ip) -/
+def Grid.pos (G : Grid XReal) (it im ip : Nat) : Nat := it * (G.nmu * G.nphi) + (im * G.nphi + ip)
+
+theorem cursors_get (G : Grid XReal) (hp : 0 < G.nphi) (it im ip : Nat) (h1 : it < G.nt) (h2 : im < G.nmu)
+    (h3 : ip < G.nphi) : (cursors (0, 0, 0) G.blocks)[G.pos it im ip]? = some (it, im, ip) := by
+  rw [cursors_blocks G hp]
+  have b2 : im * G.nphi + ip < G.nmu * G.nphi := by
+    calc im * G.nphi + ip < im * G.nphi + G.nphi := by omega
+      _ = (im + 1) * G.nphi := (Nat.succ_mul _ _).symm
+      _ ≤ G.nmu * G.nphi := Nat.mul_le_mul_right _ h2
+  unfold Grid.pos
+  rw [getElem?_flatMap_const _ _ (G.nmu * G.nphi) (fun x _ => by simp [List.length_flatMap, sum_const_range]) it _ b2,
+    List.getElem?_range h1]
+  simp only [Option.bind_some]
+  rw [getElem?_flatMap_const _ _ G.nphi (fun x _ => by simp) im _ h3, List.getElem?_range h2]
+  simp only [Option.bind_some]
+  rw [List.getElem?_map, List.getElem?_range h3]
+  rfl
+
+/-- **a response printed over a full time x mu x phi grid**: when `convert` returns, it has found the three dimensions
+and the row printed for (group `ie`, time step `it`, mu zone `im`, phi zone `ip`) is the content of the cell at those
+indices, each axis read through the flip applied to its bins -/
+theorem grid_scores_attached (G : Grid XReal) (ht : 0 < G.nt) (hm : 0 < G.nmu) (hp : 0 < G.nphi)
+    {sp : Spectrum XReal} (h : convert G.blocks = .ok sp)
+    (it im ip ie : Nat) (h1 : it < G.nt) (h2 : im < G.nmu) (h3 : ip < G.nphi) (h4 : ie < (G.rows it im ip).length) :
+    sp.nt = G.nt ∧ sp.nmu = G.nmu ∧ sp.nphi = G.nphi ∧ sp.ne = (G.rows 0 0 0).length ∧
+    ∃ (fe ft fm fp : Bool) (eb tb mb pb : List XReal),
+      sp.ebins = orientL fe eb ∧ fe = decreasing eb ∧ sp.tbins = orientL ft tb ∧ ft = decreasing tb ∧
+      sp.mubins = orientL fm mb ∧ fm = decreasing mb ∧ sp.phibins = orientL fp pb ∧ fp = decreasing pb ∧
+      ie < sp.ne ∧
+      sp.cells[((ixf fe sp.ne ie * sp.nt + ixf ft sp.nt it) * sp.nmu + ixf fm sp.nmu im) * sp.nphi
+        + ixf fp sp.nphi ip]? = some (some (G.rows it im ip)[ie]) := by
+  have hnb := nbBins_blocks G ht hm hp
+  obtain ⟨dims, b, eb, tb, mb, pb, k1, _, _, _, _, _, hsp⟩ := convert_ok h
+  rw [hnb] at k1
+  cases k1
+  have hdims : sp.nt = G.nt ∧ sp.nmu = G.nmu ∧ sp.nphi = G.nphi ∧ sp.ne = (G.rows 0 0 0).length := by
+    subst hsp; exact ⟨rfl, rfl, rfl, rfl⟩
+  refine ⟨hdims.1, hdims.2.1, hdims.2.2.1, hdims.2.2.2, ?_⟩
+  have hget : G.blocks[G.pos it im ip]? = some (G.blk it im ip) := blocks_get G it im ip h1 h2 h3
+  have hk : G.pos it im ip < G.blocks.length := (List.getElem?_eq_some_iff.1 hget).1
+  have hblk : G.blocks[G.pos it im ip] = G.blk it im ip := (List.getElem?_eq_some_iff.1 hget).2
+  have hie : ie < (G.blocks[G.pos it im ip]).rows.length := by rw [hblk]; exact h4
+  obtain ⟨cu, fe, ft, fm, fp, eb', tb', mb', pb', hcu, e1, e2, e3, e4, e5, e6, e7, e8, r1, _, _, _, hcell⟩ :=
+    all_axes_score_attached h (cursors_blocks_nodup G hp) (G.pos it im ip) hk ie hie
+  rw [cursors_get G hp it im ip h1 h2 h3] at hcu
+  cases hcu
+  refine ⟨fe, ft, fm, fp, eb', tb', mb', pb', e1, e2, e3, e4, e5, e6, e7, e8, r1, ?_⟩
+  simp only [hblk] at hcell
+  exact hcell
 
 end T4Spec
